@@ -80,12 +80,25 @@ Definition property_ok (c : line_case) : bool := with_case c (fun L r sf pp => p
 Definition line_check (c : line_case) : bool :=
   with_case c (fun L r sf pp => model_agrees_ r c && spec_agrees_ r sf pp c && property_ok_ L (c_line c) r sf pp).
 
-(* whole texts: (limit, text, implementation output text or None) *)
-Definition text_case := (N * str * option (list (N * N)))%type.
-Definition text_check (c : text_case) : bool :=
-  let '(L, t, o) := c in
+(* whole texts: limit, text, checksums of the implementation's output lines (None = InternalError),
+   property code computed by the Python mirror on the implementation's output *)
+Definition text_case := (N * str * option (list (N * N)) * N)%type.
+Definition text_model_agrees (c : text_case) : bool :=
+  let '(L, t, o, _) := c in
   match process_text (N.to_nat L) t, o with
   | TOk x, Some y => sums_eqb (sums (split_nl x)) y
   | TErr, None => true
   | _, _ => false
   end.
+(* join (model output) ~ join (input) evaluated by the Coq spec = value computed by the Python mirror;
+   every output line within the limit; output is a fixed point *)
+Definition text_spec_agrees (c : text_case) : bool :=
+  let '(L, t, _, pp) := c in
+  match process_text (N.to_nat L) t with
+  | TOk x => N.eqb (prop_on_lines (split_nl t) (split_nl x)) pp
+             && forallb (fun l => length l <=? N.to_nat L) (split_nl x)
+             && match process_text (N.to_nat L) x with TOk y => str_eqb x y | _ => false end
+  | TErr => N.eqb 3 pp
+  | TFuel => false
+  end.
+Definition text_check (c : text_case) : bool := text_model_agrees c && text_spec_agrees c.
